@@ -269,6 +269,14 @@ def run_semantic(ck, text_cases):
     if violations:
         worst = min(violations, key=lambda x: (len(x["db"]["samples"]) + len(x["db"]["series"]), len(x["query"])))
         ck.violation(worst)
+    elif getattr(ck, "sql_mismatch_cases", None):
+        # the text left the model but no database of the search tells the two SELECTs apart
+        mm = ck.sql_mismatch_cases
+        judged = [i for i in mism_ids if i in res and res[i]["fragment"] and res[i]["text_ok"]]
+        ck.violation({"property": "C07", "kind": "SQL text differs from the planner model; no failing input found",
+                      "text_mismatches": len(mm), "first": [{"query": c["query"], "ctx": c["ctx"], "diff": c.get("diff")} for c in mm[:5]],
+                      "semantic_search": "the implementation's SQL returned the reference answer on all %d guarded evaluations; %d of the %d mismatching queries are inside the modelled fragment and were evaluated"
+                                         % (theorem_evals, len(judged), len(mm))}, no_input=True)
     ck.coverage["evaluations"] += n_eval
     ck.coverage["distinct_nontrivial"] += len(nontrivial)
     ck.coverage["rule"] += ("semantic layer: (query, ctx, database) triples; the implementation's SQL is evaluated twice (two tie-breakings) and judged by sem_b; "
@@ -286,7 +294,46 @@ def run_semantic(ck, text_cases):
     ck.add_samples(samples)
 
 
+def run_replay(ck):
+    """bin/check C07 --replay <file>: the (query, ctx, db) of a replay goes through the real parser and planners again,
+    the SQL is evaluated over the recorded database and judged"""
+    r = json.load(open(ck.replay))
+    if "query" not in r:
+        ck.obligation("replay file carries a (query, ctx, db) triple", False, "kind=%s" % r.get("kind"))
+        return
+    if not ck.go_build("logqlsem") or not ck.go_build("logqlsql"):
+        ck.obligation("harness logqlsem / logqlsql build against the repository", False, ck.build_out[-1500:])
+        return
+    ok, out = ck.coq_make(["model/LogqlSemCheck.vo"])
+    case = {"id": 1, "query": r["query"], "ctx": r["ctx"], "runs": 1, "class": [], "dbs": [r["db"]]}
+    enriched, out = pipeline(ck, "replay", [case], 1)
+    if enriched is None or enriched[0].get("skip"):
+        ck.obligation("replay case prepared", False, (out or enriched[0].get("skip"))[-800:])
+        return
+    res, out = eval_sem(ck, "c07replay", enriched)
+    if res is None:
+        ck.obligation("replay evaluated by the extracted model", False, out[-1500:])
+        return
+    v = res[1]
+    d = v["dbs"][0]
+    bad = d["impl"] == 1 or d["rev"] == 1
+    guards = v["width"] and d["absent"] and d["oracle"]
+    ck.coverage["evaluations"] += 1
+    ck.obligation("replay: the implementation's SQL returns the reference answer on the recorded database", not bad,
+                  "expected %s got %s (inside the guards: %s; same as the model: %s)" % (d.get("want"), d.get("got"), guards, d["same"]))
+    if bad and (guards or not d["same"]):
+        ck.violation(dict(r, expected=d.get("want"), got=d.get("got"), sql=enriched[0]["sql"][0]))
+    elif bad:
+        fid = FINDING_WIDTH if not v["width"] else FINDING_ABSENT if not d["absent"] else FINDING_FLOAT
+        if fid in ck.known_findings():
+            ck.obligations.pop()
+            ck.report_known(fid, "%s -> expected %d rows, got %s" % (r["query"], len(d.get("want") or []), len(d["got"]) if d.get("got") is not None else "-"))
+
+
 def run(ck):
+    if ck.replay:
+        run_replay(ck)
+        return
     ck.trusted += [
         "C07: model/SqlEval.v is the MEANING of the ClickHouse subset the log plans use (no ClickHouse exists offline): alias resolution, PREWHERE = WHERE, GROUP BY/HAVING with groupBitOr, IN (subquery), ANY LEFT JOIN, ORDER BY/LIMIT with arbitrary ties, LIKE patterns, UInt8 width of bitShiftLeft, NULL logic; read and commented, not tested against a server",
         "C07: model/LogqlSem.v is the reference meaning of a log query (absent label = \"\", regex matchers unanchored like ClickHouse match(), label-filter precedence as parsed); validated by reading and by Examples only",
@@ -301,7 +348,7 @@ def run(ck):
     # the OCaml scratch directory of sqltext ("logql") is shared by every check that calls run_logql; when two checks
     # run at the same time their builds can clobber each other ("inconsistent assumptions over interface Cases").
     # That is not a property of the repository: retry once.
-    if ck.obligations and not ck.obligations[-1][1] and "ocaml build failed" in ck.obligations[-1][2]:
+    if ck.obligations and not ck.obligations[-1][1] and "evaluated by the extracted model" in ck.obligations[-1][0]:
         ck.log("sqltext OCaml build was disturbed by a concurrent run; retrying once")
         ck.obligations.pop()
         time.sleep(5)
